@@ -360,10 +360,11 @@ def self_insert(ck, runner, rng, tier):
     # twice in a row, and through a view over the table
     for n in ([33000] if tier == "quick" else [5, 33000, 70000]):
         s = n * (n + 1) // 2
+        m = min(n, 10)            # the second insert copies the rows with a <= 10, each present twice by then
         stmts = ["SET partitions TO 1", "CREATE TEMP TABLE big (a BIGINT)", f"INSERT INTO big SELECT x FROM generate_series(1, {n}) g(x)",
                  "CREATE TEMP VIEW bv AS SELECT a FROM big WHERE a > 0", "INSERT INTO big SELECT a FROM bv", "INSERT INTO big SELECT a FROM bv WHERE a <= 10",
                  "SELECT count(*), sum(a), count(DISTINCT a) FROM big"]
-        digest_ok(runner, ck, comp, "insert-select/self/reads-own-appends", f"self-insert through a view on {n} rows", stmts, [2 * n + 20, 2 * s + 110, n], timeout=60)
+        digest_ok(runner, ck, comp, "insert-select/self/reads-own-appends", f"self-insert through a view on {n} rows", stmts, [2 * n + 2 * m, 2 * s + m * (m + 1), n], timeout=60)
 
 
 def parallel(ck, runner, rng, tier):
